@@ -841,7 +841,7 @@ def random_programs(ck, n, depth, seed_offset=0, mode="prog"):
                 hit = True
         return hit
     import json as _j
-    rws = [_j.loads(l) for l in open(trace)][:200]
+    rws = [r_ for r_ in (_j.loads(l) for l in open(trace)) if r_["obs"]["eff"]][:400]
     if mut(rws):
         bad = trace + ".corrupt"
         write_ndjson(bad, rws)
@@ -916,11 +916,10 @@ def evaluator_traces(ck, which, size):
         ck.report("looptops:differs-from-machine", "the real evaluation loop does not follow the small-step machine: " + why[:400],
                   {"case": {"kind": "looptops-trace", "record": rows[int(idx) - 1]["sz"], "why": why}})
     # binding self-test: drop one recorded iteration
-    if rows:
-        bad = [dict(r_) for r_ in rows[:50]]
+    bad = [dict(r_) for r_ in rows if len(r_["tops"]) > 2][:50]
+    if bad:
         for b in bad:
-            if len(b["tops"]) > 2:
-                b["tops"] = b["tops"][:1] + b["tops"][2:]
+            b["tops"] = b["tops"][:1] + b["tops"][2:]
         path = trace + ".corrupt"
         write_ndjson(path, bad)
         t2 = ck.tlc("TraceEval", cfg(constants={"Which": '"%s"' % which}), env={"VERIF_TRACE": path}, want_cases=False, timeout=900)
